@@ -181,6 +181,18 @@ def _check_entry_forms(case):
         row = (2.0 if mode == "error" else 1.0, lab)
         e = {"replace": lambda: Point(row[0], "tmp")._replace(label=lab), "make": lambda: Point._make(row), "tuple": lambda: row,
              "list": lambda: list(row), "call": lambda: Point(*row)}[how]()
+    if mode == "constructor":      # the same entry object handed to the constructor / to new(): "labels carry no surrounding whitespace" whatever the entry is made of
+        st, t2, _ = call((IT if kind == "I" else PT), "t", [e], 0.0, 4.0)
+        st3, t3, _ = call(t.new, "t", [e])
+        for how2, stx, tx in (("the constructor", st, t2), ("new(entries=...)", st3, t3)):
+            if stx == "exc":
+                if not isinstance(tx, PE):
+                    return 2, "X", None, [Viol("non-praatio-exception:" + type(tx).__name__, f"{how2} given an entry built by {how} with label {lab!r} raised {tx!r}")]
+                continue
+            w = wellformed(tx)
+            if w:
+                return 2, "!", None, [Viol("ill-formed:" + w, f"{how2} given an entry built by {how} (float times) with label {lab!r}: {canon(tx)}")]
+        return 2, "ok", (kind, how, mode), []
     st, r, _ = call(t.insertEntry, e, mode, "silence")
     if st == "exc" and not isinstance(r, PE):
         return 1, "X", None, [Viol("non-praatio-exception:" + type(r).__name__, f"insertEntry(entry built by {how} with label {lab!r}, {mode!r}) raised {r!r}")]
@@ -233,7 +245,7 @@ def parts(tier):
 
     ps.append(InputPart("entries-built-through-namedtuple-helpers",
                         lambda: ((k, how, lab, m) for k in ("I", "P") for how in ("replace", "make", "tuple", "list", "call")
-                                 for lab in ("dog\n", " x", "\ty ", "plain", " ") for m in ("error", "replace", "merge")),
+                                 for lab in ("dog\n", " x", "\ty ", "plain", " ") for m in ("error", "replace", "merge", "constructor")),
                         _check_entry_forms,
                         rule="insertEntry with an entry made by Interval(...)._replace(label=...), Interval._make(row), a tuple, a list, or the constructor call "
                              "(same for Point) x labels with surrounding whitespace x 3 collision modes (colliding for replace / merge): the tier is "
